@@ -59,6 +59,44 @@ func ruleNoSharedRuntimeStorage(c *Ctx, rule string) {
 				case *ast.FuncLit:
 					return false // nested literals (goroutine bodies, deferred functions) are judged as part of their own run
 				case *ast.AssignStmt:
+					// p := &buf[i] followed by a store through p (p.f = v, *p = v)
+					if len(x.Lhs) == 1 && len(x.Rhs) == 1 && identOf(x.Lhs[0]) != nil {
+						if u, ok := unparen(x.Rhs[0]).(*ast.UnaryExpr); ok && u.Op == token.AND {
+							if ix, ok := unparen(u.X).(*ast.IndexExpr); ok && identOf(ix.X) != nil {
+								o := info.Uses[identOf(ix.X)]
+								if captured(o) && isMadeSlice(info, fd, &di, o) {
+									po := info.Defs[identOf(x.Lhs[0])]
+									if po == nil {
+										po = info.Uses[identOf(x.Lhs[0])]
+									}
+									ast.Inspect(lit.Body, func(m ast.Node) bool {
+										as, ok := m.(*ast.AssignStmt)
+										if !ok || as.Tok == token.DEFINE {
+											return true
+										}
+										for _, l := range as.Lhs {
+											root := unparen(l)
+											for {
+												switch y := root.(type) {
+												case *ast.SelectorExpr:
+													root = unparen(y.X)
+													continue
+												case *ast.StarExpr:
+													root = unparen(y.X)
+													continue
+												}
+												break
+											}
+											if root != unparen(l) && usedObj(info, root) == po && po != nil {
+												r.bad = append(r.bad, fmt.Sprintf("%s: store through a pointer to an element of the captured buffer %s (allocated once by the compile function)", c.pos(as), identOf(ix.X).Name))
+											}
+										}
+										return true
+									})
+								}
+							}
+						}
+					}
 					for _, l := range x.Lhs {
 						ix, ok := unparen(l).(*ast.IndexExpr)
 						if !ok {
@@ -69,24 +107,8 @@ func ruleNoSharedRuntimeStorage(c *Ctx, rule string) {
 							continue
 						}
 						o := info.Uses[id]
-						if !captured(o) {
-							continue
-						}
-						if _, isSlice := o.Type().Underlying().(*types.Slice); !isSlice {
-							continue
-						}
-						if di == nil {
-							di = buildDefIndex(info, fd)
-						}
-						for _, d := range di.defs[o] {
-							if d == nil {
-								continue
-							}
-							if call, ok := unparen(d).(*ast.CallExpr); ok && identOf(call.Fun) != nil && identOf(call.Fun).Name == "make" {
-								if _, isB := info.Uses[identOf(call.Fun)].(*types.Builtin); isB {
-									r.bad = append(r.bad, fmt.Sprintf("%s: element of the captured buffer %s (allocated once at %s) is written at run time", c.pos(x), id.Name, c.pos(d)))
-								}
-							}
+						if captured(o) && isMadeSlice(info, fd, &di, o) {
+							r.bad = append(r.bad, fmt.Sprintf("%s: element of the captured buffer %s (allocated once by the compile function) is written at run time", c.pos(x), id.Name))
 						}
 					}
 				case *ast.ReturnStmt:
@@ -595,4 +617,28 @@ func ruleAccessorInCategoryArm(c *Ctx, rule string, files []string) {
 	if total < 20 {
 		c.Ob(rule, "fast/category-arms", nil, false, fmt.Sprintf("%d accessors in category arms found, more than 20 expected", total))
 	}
+}
+
+// isMadeSlice: o is a slice-typed local of fd one of whose definitions is a call of the builtin make.
+func isMadeSlice(info *types.Info, fd *ast.FuncDecl, di **defIndex, o types.Object) bool {
+	if o == nil {
+		return false
+	}
+	if _, isSlice := o.Type().Underlying().(*types.Slice); !isSlice {
+		return false
+	}
+	if *di == nil {
+		*di = buildDefIndex(info, fd)
+	}
+	for _, d := range (*di).defs[o] {
+		if d == nil {
+			continue
+		}
+		if call, ok := unparen(d).(*ast.CallExpr); ok && identOf(call.Fun) != nil && identOf(call.Fun).Name == "make" {
+			if _, isB := info.Uses[identOf(call.Fun)].(*types.Builtin); isB {
+				return true
+			}
+		}
+	}
+	return false
 }
